@@ -112,10 +112,10 @@ def run(tier, seed, procs):
     cols = drive.pool_map(shard_subsets, tasks, procs)
     N, M, K = (3, 3, 2) if quick else (5, 5, 3)
     cols += drive.pool_map(drive.shard_enum_story,
-                           [(MOD, n, lay, K) for n in range(0, N + 1) for lay in ('none', 'mixed')], procs)
+                           [(MOD, n, lay, K) for n in range(0, N + 1) for lay in ('none', 'mixed', 'anon')], procs)
     refs = ['TGT', '', 'ZZ-unknown-story']
     cols += drive.pool_map(drive.shard_enum_item,
-                           [(MOD, m, 'mixed', K, pos, refs) for m in range(0, M + 1) for pos in (0, 1)], procs)
+                           [(MOD, m, pl, K, pos, refs) for m in range(0, M + 1) for pos in (0, 1) for pl in ('mixed', 'anon-item')], procs)
     kw = dict(allow_no_slug=True, kinds=gen.STORY_KINDS + gen.ITEM_KINDS + gen.META_KINDS[:3], faults='some', rich=True, degenerate=True,
               min_stories=1)
     shards, per = (8, 400) if quick else (16, 15000)
